@@ -117,6 +117,42 @@ def _ctor_call(prog, blocks, local, H, limit=12):
     return None
 
 
+CLOSURE_CALLS = ("core::ops::function::FnOnce::call_once", "core::ops::function::FnMut::call_mut", "core::ops::function::Fn::call")
+
+
+def _closure_def(blocks, op, limit=10):
+    """def id of the closure an operand holds: walk unique definitions (moves, references) back to the closure aggregate"""
+    pl = op.get("copy") or op.get("move")
+    if pl is None or [e for e in pl["p"] if e != "*"]:
+        return None
+    local = pl["l"]
+    for _ in range(limit):
+        defs = []
+        for blk in blocks:
+            for st in blk["s"]:
+                if st["k"] == "assign" and st["place"]["l"] == local and not st["place"]["p"]:
+                    defs.append(st)
+            t = blk["t"]
+            if t["k"] == "call" and t.get("dest") is not None and t["dest"]["l"] == local and not t["dest"]["p"]:
+                return None
+        if len(defs) != 1:
+            return None
+        rv = defs[0]["rv"]
+        if rv["k"] == "agg" and rv.get("agg") == "closure":
+            return rv.get("def")
+        if rv["k"] == "ref" and not [e for e in rv["place"]["p"] if e != "*"]:
+            local = rv["place"]["l"]
+            continue
+        if rv["k"] == "use":
+            p2 = rv["op"].get("copy") or rv["op"].get("move")
+            if p2 is None or [e for e in p2["p"] if e != "*"]:
+                return None
+            local = p2["l"]
+            continue
+        return None
+    return None
+
+
 def inlined(prog, body, want, depth=3, _chain=()):
     """Synthetic Body: `body` with accepted workspace callees spliced in (up to `depth` levels)."""
     raw = dict(body.raw)
@@ -135,7 +171,17 @@ def inlined(prog, body, want, depth=3, _chain=()):
         if t["k"] != "call" or d <= 0:
             continue
         cb = _targets(prog, t)
-        if cb is None or cb.id in ch or not want(cb):
+        clos_call = False
+        fcl = callee(t)
+        if fcl is not None and norm(fcl["name"]) in CLOSURE_CALLS and len(t["args"]) == 2:
+            # `update(&mut frame)` on a closure parameter of a spliced helper (`fn with_frame(&mut self, update: impl FnOnce(..))`):
+            # the closure value is known where the helper was called — follow the operand back to the closure aggregate and
+            # splice the closure's body (its environment is the operand, its parameters are the fields of the argument tuple)
+            cdef = _closure_def(blocks, t["args"][0])
+            cand = prog.bodies.get(cdef) if cdef else None
+            if cand is not None and cand.id not in ch and prog.bodies.get(cand.root, cand).id in {prog.bodies.get(prog.bodies[c].root, prog.bodies[c]).id for c in ch if c in prog.bodies}:
+                cb, clos_call = cand, True
+        if cb is None or cb.id in ch or not (clos_call or want(cb)):
             continue
         up = None
         if cb.raw.get("coroutine"):
@@ -191,7 +237,22 @@ def inlined(prog, body, want, depth=3, _chain=()):
         if up is not None:
             # resume argument of the spliced coroutine = the context the caller polls with
             pre["s"].append({"k": "assign", "place": {"l": lo + 2, "p": []}, "rv": {"k": "use", "op": copy.deepcopy(t["args"][1])}, "span": span})
-        for i, a in enumerate(t["args"] if up is None else []):
+        if clos_call:
+            pre["s"].append({"k": "assign", "place": {"l": lo + 1, "p": []}, "rv": {"k": "use", "op": copy.deepcopy(t["args"][0])}, "span": span})
+            tp = t["args"][1].get("copy") or t["args"][1].get("move")
+            tup = None
+            if tp is not None and not tp["p"]:
+                tdefs = [st for blk2 in blocks for st in blk2["s"] if st["k"] == "assign" and st["place"]["l"] == tp["l"] and not st["place"]["p"]]
+                if len(tdefs) == 1 and tdefs[0]["rv"]["k"] == "agg" and tdefs[0]["rv"].get("agg") == "tuple":
+                    tup = tdefs[0]["rv"]["ops"]
+            for i in range(max(0, cb.mir["argc"] - 1)):
+                if tup is not None and i < len(tup):
+                    # the argument tuple is built right at the call: hand its components over directly
+                    pre["s"].append({"k": "assign", "place": {"l": lo + 2 + i, "p": []}, "rv": {"k": "use", "op": copy.deepcopy(tup[i])}, "span": span})
+                elif tp is not None:
+                    pre["s"].append({"k": "assign", "place": {"l": lo + 2 + i, "p": []}, "span": span,
+                                     "rv": {"k": "use", "op": {"move": {"l": tp["l"], "p": list(tp["p"]) + [{"f": i, "n": None, "ty": "?"}]}}}})
+        for i, a in enumerate(t["args"] if up is None and not clos_call else []):
             pre["s"].append({"k": "assign", "place": {"l": lo + 1 + i, "p": []}, "rv": {"k": "use", "op": copy.deepcopy(a)}, "span": span})
         blocks.append(pre)
         blocks[bb]["t"] = {"k": "goto", "target": prelude, "inlined_call": norm(cb.name)}
